@@ -1,6 +1,7 @@
 SPECIFICATION Spec
 CONSTANTS
   WordMod = 0
+  ScanWraps = FALSE
 INVARIANT Conforms
 INVARIANT EndsAgree
 INVARIANT Witnessed
